@@ -366,7 +366,7 @@ func genPoolCase(r *rng, i int, mode string) *poolCase {
 	c.Model = 1 + r.intn(4)
 	c.Init = genPRules(r, 1+r.intn(3), 0)
 	switch mode {
-	case "mgmt":
+	case "mgmt", "churn":
 		n := 2 + r.intn(7)
 		for k := 0; k < n; k++ {
 			ver := int64(k + 1)
@@ -584,6 +584,50 @@ func runPoolCase(c *poolCase) {
 				id++
 			}
 		}
+	case "churn":
+		// requests from several goroutines while another one walks through every management
+		// operation and query: nothing is compared, the run is for the race detector and for crashes
+		open := newParker(0)
+		open.openGate()
+		h.pk.Store(open)
+		var wg sync.WaitGroup
+		stop := make(chan struct{})
+		var nreq int64
+		for g := 0; g < int(c.Max)+1; g++ {
+			wg.Add(1)
+			go func(g int) {
+				defer wg.Done()
+				for k := 0; ; k++ {
+					select {
+					case <-stop:
+						return
+					default:
+					}
+					ex := h.requestWith(updMethods[(g+k)%5], &pReq{Id: int64(100*g + k%90)}, nil)
+					atomic.AddInt64(&nreq, 1)
+					if ex.Panic != "" {
+						c.Execs = append(c.Execs, ex)
+						return
+					}
+				}
+			}(g)
+		}
+		for k := range c.Ops {
+			op := &c.Ops[k]
+			h.applyOp(op, k)
+			func() {
+				defer func() {
+					if p := recover(); p != nil {
+						op.Panic = "queries: " + fmt.Sprint(p)
+					}
+				}()
+				op.Queries = h.queries()
+			}()
+			time.Sleep(time.Millisecond)
+		}
+		close(stop)
+		wg.Wait()
+		c.Done = int(atomic.LoadInt64(&nreq))
 	case "cap":
 		failing := map[int64]bool{}
 		all := ids(1, c.Clients)
